@@ -20,9 +20,9 @@ Proved about it, for EVERY schema (no well-formedness hypothesis beyond "the com
 * `C13_fields_present`     every tag of every generated trait array (all messages, all group levels) has an entry in the field
                            table, and every entry of the field table is a declared field (number, name, known type, its domain).
 * `C13_domains_sorted`     every enumerated domain is strictly ordered by value (ints, chars, decimals numerically, strings lexicographically).
-* `C13_nesting_preserved`  when the structural hash separates the group definitions of the schema (`HashInjOn`, i.e. outside the
-                           known-finding class of C14) every group of every message is generated from its own definition, nested
-                           groups included.
+* `C13_nesting_preserved`  every group of every message is generated from its own definition, nested groups included – for every
+                           schema with fewer than 2^32 group occurrences (the bound the 32-bit probing loop of the fixed
+                           `parse_groups` needs, `Props.C14.C14_probe_exits`); no hypothesis on the structural hash any more.
 * `C13_expansion_*`        component expansion: fields outside components keep their `required`; below a non-required reference
                            `Y` becomes `N`; the depth-3 rule of `process_component` (known finding `optional-outer-component-ignored`).
 -/
@@ -181,9 +181,9 @@ theorem C13_domains_sorted (s : Schema) (md : Metadata) (h : compile s = some md
   rw [hr] at hm
   exact mkRealm_sorted ft d.values r hm
 
-/-- group nesting is preserved whenever the structural hash separates the definitions (C14's excluded class) -/
+/-- group nesting is preserved (since the fix of C14: without any hypothesis on the structural hash) -/
 theorem C13_nesting_preserved (s : Schema) (md : Metadata) (h : compile s = some md) (l : Loaded) (hl : load s = some l)
-    (hinj : HashInjOn l.occs) :
+    (hb : l.occs.length < 2 ^ 32) :
     Rel2 (fun ms mm => mm.groups = ms.lvl.gs ∧ mm.key = ms.key) l.msgs md.msgs := by
   obtain ⟨l', hl', hrel, _, _⟩ := compile_load s md h
   rw [hl] at hl'; cases hl'
@@ -201,7 +201,7 @@ theorem C13_nesting_preserved (s : Schema) (md : Metadata) (h : compile s = some
       have : optMapGroups (resolve (buildMap l.occs) (maxDepth l.occs + 1)) ms.lvl.gs = some ms.lvl.gs := by
         apply optMapGroups_id
         intro g hg
-        exact resolve_own l.occs hcl hinj _ g (hin g hg) (Nat.le_succ_of_le (le_maxDepth l.occs g (hin g hg)))
+        exact resolve_own l.occs hcl hb _ g (hin g hg) (Nat.le_succ_of_le (le_maxDepth l.occs g (hin g hg)))
       rw [this] at hgs
       exact ⟨(Option.some.inj hgs).symm, hk⟩
   exact conv l.msgs md.msgs (fun _ h => h) hrel
@@ -262,15 +262,26 @@ example : ((compile exSchema).map (fun md => (md.fields.map (·.number), md.msgs
           [("A", true, [(100, 1, 5), (200, 2, 21), (201, 4, 20), (300, 3, 29)]), ("B", false, [(100, 3, 4), (200, 1, 21), (300, 2, 29)]),
            ("header", false, [(8, 1, 100), (9, 2, 100), (35, 3, 68)]), ("trailer", false, [(10, 1, 100)])])) = true := by decide
 
-example : ∃ l, load exSchema = some l ∧ HashInjOn l.occs := by
+example : ∃ l, load exSchema = some l ∧ l.occs.length < 2 ^ 32 := by
   cases hl : load exSchema with
   | none => exact absurd hl (by decide)
   | some l =>
     refine ⟨l, rfl, ?_⟩
-    have key : ∀ l', load exSchema = some l' →
-        (∀ a ∈ l'.occs, ∀ b ∈ l'.occs, (a.1 == b.1 && groupHash a.2 == groupHash b.2) = true → GSpec.beq a.2 b.2 = true) := by
-      decide
-    intro a ha b hb h1 h2
-    exact GSpec.beq_eq _ _ (key l hl a ha b hb (by simp [h1, h2]))
+    have key : ∀ l', load exSchema = some l' → l'.occs.length < 2 ^ 32 := by decide
+    exact key l hl
+
+/-- regression for the former finding `group-hash-collision` as seen from C13: the component `Blk` holds the group `NoG` and is
+referenced required='N' by Alpha and required='Y' by Beta, so the two definitions of `NoG` differ only in mandatory flags
+(equal structural hash).  Each message now gets its own flags (before the fix Beta got Alpha's). -/
+def exFlagSchema : Schema :=
+  { exSchema with
+    msgs := [⟨"Alpha", "A", "admin", [.field "F100" "Y", .comp "Blk" "N"]⟩, ⟨"Beta", "B", "app", [.comp "Blk" "Y", .field "F100" "N"]⟩] }
+
+def groupFlags (md : Metadata) : List (String × List (Nat × List (Nat × Nat))) :=
+  md.msgs.map fun m => (m.key, m.groups.map fun g => (g.1, g.2.traits.map fun t => (t.tag, t.flags)))
+
+theorem C13_fixed_component_flags :
+    ((compile exFlagSchema).map groupFlags ==
+      some [("A", [(300, [(2, 4), (301, 12)])]), ("B", [(300, [(2, 5), (301, 12)])]), ("header", []), ("trailer", [])]) = true := by decide
 
 end Fix8Model.Props.C13
